@@ -124,6 +124,7 @@ type Scenario struct {
 	// options
 	OrderedShutdown bool     `json:"ordered_shutdown,omitempty"`
 	ViaCmd          bool     `json:"via_cmd,omitempty"` // run through the binary's headless entry point (installs its signal handler)
+	Keep            bool     `json:"keep_project,omitempty"` // with ViaCmd: as "up --keep-project" does (the binary stays until the project is shut down)
 	ToRun           []string `json:"to_run,omitempty"`
 	NoDeps          bool     `json:"no_deps,omitempty"`
 	Namespaces      []string `json:"namespaces,omitempty"`
